@@ -298,8 +298,15 @@ long long batteryNames(NifFile& nif, ContentIds& ids) {
 		if (auto si = hdr.GetBlock<NiSkinInstance>(shape->SkinInstanceRef())) l += " root:" + nameOf(si->targetRef.index);
 		else if (auto bi = hdr.GetBlock<BSSkinInstance>(shape->SkinInstanceRef())) l += " root:" + nameOf(bi->targetRef.index);
 		// how many bone entries the skin has, placeholders included (bones that are given by name only keep an empty entry each)
-		if (auto si = hdr.GetBlock<NiSkinInstance>(shape->SkinInstanceRef())) l += " entries:" + std::to_string(si->boneRefs.GetSize());
-		else if (auto bi = hdr.GetBlock<BSSkinInstance>(shape->SkinInstanceRef())) l += " entries:" + std::to_string(bi->boneRefs.GetSize());
+		// (found through the shape's own reference list: every shape kind lists its skin there)
+		{
+			std::vector<uint32_t> kids;
+			shape->GetChildIndices(kids);
+			for (auto kid : kids) {
+				if (auto si = hdr.GetBlock<NiSkinInstance>(kid)) l += " entries:" + std::to_string(si->boneRefs.GetSize());
+				else if (auto bi = hdr.GetBlock<BSSkinInstance>(kid)) l += " entries:" + std::to_string(bi->boneRefs.GetSize());
+			}
+		}
 		if (auto sh = nif.GetShader(shape)) l += " shader:" + std::string(sh->GetBlockName()) + ":" + sh->name.get();
 		for (uint32_t t = 0; t < 10; t++) {
 			std::string tex;
@@ -309,6 +316,8 @@ long long batteryNames(NifFile& nif, ContentIds& ids) {
 	}
 	std::sort(lines.begin(), lines.end());
 	for (auto& l : lines) str(l);
+	if (getenv("NVH_DEBUG_NAMES"))
+		for (auto& l : lines) fprintf(stderr, "names: %s\n", l.c_str());
 	return ids.of(buf);
 }
 } // namespace vh
